@@ -8,6 +8,18 @@ TB = ("Trusted: Lean 4.33 kernel; axioms propext, Classical.choice, Quot.sound (
 
 # id -> (category, technique, text, note, design_ref)
 CHECKS = {
+    "C08": ("proof", "Lean 4 proofs about literal models of c2mir's layout and eightbyte classification vs a psABI specification + c2m/gcc/model three-way correspondence on generated declarations and by-value passing",
+            "PROVED for every well-formed type: layout well-formedness (alignment divides size, members aligned, inside the object, ordered and disjoint), termination of the backwards search loop, "
+            "c2mir layout = psABI layout for all types without bit-fields and for bit-fields under an explicit decidable side condition; classification merge laws; classification and register assignment = psABI "
+            "under explicit side conditions; the full statements are shown false by kernel-checked counterexamples (listed findings). Correspondence: c2m built from the current tree vs gcc vs the model on random and "
+            "small-scope-exhaustive declarations (sizeof/_Alignof/offsetof/bit-field images) and on by-value passing in both directions with register/stack capture.",
+            TB + " gcc 12 is the psABI reference. Bit-field classification is not proved.", "4 C08"),
+    "C10": ("proof", "Lean 4 proof of scan(print m) round trip for a literal model of MIR_output and the text scanner (lexer, parser, elaborator) + byte-exact correspondence in both directions",
+            "PROVED for every module satisfying an explicit decidable WF predicate (all item kinds, all operand forms incl. alias/nonalias, blk/rblk parameters, hard-register globals, vararg, multi-result): "
+            "scanText (printText m) = ok (normText m) and printText (normText m) = printText m; string and integer codecs for all byte strings / all 64-bit values with the exact conditions the code forces. "
+            "Correspondence: writer model = MIR_output bytes, scanner model = MIR_scan_string verdict and re-output on generated modules, free-form spellings, mutated texts, mir-tests and c2m -S corpus; "
+            "execution before/after. Floating literals: exact Lean model of %.*e / strtod compared with glibc on every run.",
+            TB + " libc printf/strtod equality is checked per literal, not proved; label renumbering outside WF is checked, not proved.", "4 C10"),
     "C12": ("proof", "Lean 4 proof of the byte-exact encoder/decoder model (round trip, prefix-freeness, hash binding, in-bounds accesses) + byte-exact correspondence with mir-reduce.h under ASan/UBSan/MSan",
             "PROVED for every byte string of every length (multi-buffer included): decode (encode d) = d for the exact model of _reduce_encode_buf (hash-table dictionary, eviction, MAX_SYMB_LEN flush); "
             "any valid parse decodes to its data; the accepted language is prefix-free (every truncation and extension of an accepted stream is rejected); an accepted stream carries the chain hash of its "
